@@ -158,10 +158,55 @@ def bounds_tree_tie(chk, tier, r):
         chk.count("bounds_tree-compared")
 
 
+def array_level(chk, tier, r):
+    """the index as users reach it: `arr.sindex` / `GeoSeries.sindex` / `build_sindex(...)` of geometry arrays with missing and empty
+    elements at any position - the rows reported must be positions in the array, exactly those whose bounds overlap / are covered"""
+    from . import geo
+    from spatialpandas import GeoSeries
+    for k in range(40 if tier == "quick" else 400):
+        kind = r.choice(("point", "line", "multipoint", "polygon"))
+        n = r.randint(1, 9)
+        els = geo.structured_elements(kind, r, n, mag=9)
+        for _ in range(r.choice((0, 1, 2))):
+            els[r.randrange(len(els))] = None if r.random() < 0.6 or kind == "point" else []
+        arr = geo.make_array(kind, els, "float64")
+        bnds = np.asarray(arr.bounds).reshape(len(els), 4).tolist()
+        ps = r.choice((1, 2, 3, 512))
+        how = k % 3
+        try:
+            if how == 0:
+                arr.build_sindex(page_size=ps)
+                idx = arr.sindex
+            elif how == 1:
+                s = GeoSeries(arr).build_sindex(page_size=ps)
+                idx = s.sindex
+            else:
+                idx = arr.sindex
+            qs = [[r.randint(-10, 5), r.randint(-10, 5)] for _ in range(6)]
+            qs = [q + [q[0] + r.choice((0, 3, 9, 25)), q[1] + r.choice((0, 3, 9, 25))] for q in qs] + [[-50, -50, 50, 50]]
+            for q in qs:
+                gi = sorted(int(x) for x in idx.intersects(tuple(q)))
+                co = idx.covers_overlaps(tuple(q))
+                gc, go = sorted(int(x) for x in co[0]), sorted(int(x) for x in co[1])
+                bi, bc, bo = brute(bnds, q, 2)
+                chk.evaluated()
+                if (gi, gc, go) != (bi, bc, bo):
+                    what = "intersects" if gi != bi else "covers_overlaps"
+                    chk.violation(f"rtree/array-level/{what}-differs/{'with-missing' if any(e is None or e == [] for e in els) else 'all-valid'}",
+                                  dict(api=("GeometryArray.sindex", "GeoSeries.sindex", "GeometryArray.sindex (default)")[how], kind=kind, elements=els,
+                                       page_size=ps, query=q, impl=dict(intersects=gi, covers=gc, overlaps=go),
+                                       expected=dict(intersects=bi, covers=bc, overlaps=bo)), size=len(els))
+                    break
+            chk.count("array-level-index:" + ("missing" if any(e is None or e == [] for e in els) else "valid"))
+        except Exception as e:  # noqa: BLE001
+            chk.violation(f"rtree/array-level/raises-{common.err_kind(e)}", dict(api="sindex", kind=kind, elements=els, error=repr(e)[:300]), size=len(els))
+
+
 def run_cases(chk, tier):
     r = common.rng(PROP)
     index_arithmetic(chk, tier)
     bounds_tree_tie(chk, tier, r)
+    array_level(chk, tier, r)
     # d = 1 exhaustive
     vals = (0, 1, 2, 3)
     opts = boxes_1d(vals) + [[NAN, NAN]]
